@@ -573,7 +573,7 @@ func (s *State) readAt(fam string, idx []string, t types.Type) *V {
 	case KSlice:
 		v := &V{K: KSlice, T: t, Arr: s.readLeaf(fam+"#arr", idx, "Int"), Off: s.readLeaf(fam+"#off", idx, "Int"),
 			Len: s.readLeaf(fam+"#len", idx, "Int"), Cap: s.readLeaf(fam+"#cap", idx, "Int")}
-		s.assume(sAnd("(>= "+v.Len+" 0)", "(>= "+v.Off+" 0)", "(>= "+v.Cap+" "+v.Len+")"))
+		s.assume(sAnd("(>= "+v.Len+" 0)", "(>= "+v.Off+" 0)", "(>= "+v.Cap+" "+v.Len+")", "(< "+v.Arr+" "+s.ghost["alloc"]+")"))
 		return v
 	case KStruct:
 		panic("readAt on struct type " + t.String())
@@ -644,6 +644,9 @@ func (s *State) fieldLoc(ref string, st types.Type, i int) *Loc {
 func (s *State) ixTerm(off, idx string) string {
 	if isIntLit(off) && isIntLit(idx) {
 		return foldArith("+", off, idx)
+	}
+	if off == "0" {
+		return idx
 	}
 	e := s.run.eng
 	e.declare("(declare-fun ix (Int Int) Int)")
@@ -796,7 +799,7 @@ func (s *State) sym(prefix string, t types.Type) *V {
 	case KSlice:
 		v := &V{K: KSlice, T: t, Arr: r.fresh(prefix+".arr", "Int"), Off: r.fresh(prefix+".off", "Int"),
 			Len: r.fresh(prefix+".len", "Int"), Cap: r.fresh(prefix+".cap", "Int")}
-		s.assume(sAnd("(>= "+v.Len+" 0)", "(>= "+v.Off+" 0)", "(>= "+v.Cap+" "+v.Len+")", "(>= "+v.Arr+" 0)"))
+		s.assume(sAnd("(>= "+v.Len+" 0)", "(>= "+v.Off+" 0)", "(>= "+v.Cap+" "+v.Len+")", "(>= "+v.Arr+" 0)", "(< "+v.Arr+" "+s.ghost["alloc"]+")"))
 		return v
 	case KStruct:
 		st := r.structFields(t)
